@@ -101,13 +101,79 @@ Proof.
   apply (IH _ _ _ Hwf Hinv' Heq' H2).
 Qed.
 
+Lemma route_wf i : forall evs,
+  forallb (fun me => wf_event (snd me)) evs = true -> forallb wf_event (route i evs) = true.
+Proof.
+  induction evs as [|[k e] evs IH]; intros H; [reflexivity|].
+  cbn [forallb snd] in H. apply andb_true_iff in H as [He H].
+  rewrite route_cons, forallb_app, (IH H), Bool.andb_true_r.
+  destruct k as [k|]; [|reflexivity]. destruct (Nat.eqb k i); [cbn; rewrite He|]; reflexivity.
+Qed.
+
+Lemma mgr_events_wf mevs :
+  forallb (fun me => wf_event (snd me)) mevs = true ->
+  forallb (fun me => wf_event (snd me)) (mgr_events mevs) = true.
+Proof.
+  unfold mgr_events. induction mevs as [|[k e] t IH]; intros H; [reflexivity|].
+  cbn [forallb snd map] in *. apply andb_true_iff in H as [He H]. rewrite He, (IH H). reflexivity.
+Qed.
+
+Lemma length_fold_mgr evs : forall bs, length (fold_left mgr_step evs bs) = length bs.
+Proof. induction evs as [|e t IH]; intros bs; [reflexivity|]. cbn [fold_left]. rewrite IH. apply length_mgr_step. Qed.
+
+Lemma all2_length {A B} (p : A -> B -> bool) : forall l1 l2, all2 p l1 l2 = true -> length l1 = length l2.
+Proof. induction l1 as [|x t IH]; intros [|y t2] H; cbn [all2] in H; try discriminate; [reflexivity|].
+  apply andb_true_iff in H as [_ H]. cbn [length]. f_equal. apply IH; exact H. Qed.
+
+Lemma final_sound evs mentioned i b f :
+  forallb (fun me => wf_event (snd me)) evs = true ->
+  b = fold_left update (route i evs) empty_book ->
+  book_matches b f = true -> final_ok evs mentioned i f = true.
+Proof.
+  intros Hwf Hb Hm. destruct f as [[[sq t] bs] as_]. unfold book_matches in Hm. unfold final_ok.
+  apply andb_true_iff in Hm as [Hm M4]. apply andb_true_iff in Hm as [Hm M3]. apply andb_true_iff in Hm as [M1 M2].
+  apply levels_eqb_eq in M3, M4.
+  destruct (run_refines (route i evs) empty_book (abs_book empty_book) (route_wf i evs Hwf) empty_book_inv (sbook_eq_refl _))
+    as [[Hib Hia] (E1 & E2 & E3 & E4)].
+  rewrite <- Hb in *. cbn [abs_book sseq stime sbids sasks] in E1, E2, E3, E4.
+  rewrite <- E1, <- E2, M1, M2. cbn [andb]. subst bs as_.
+  rewrite (side_is_map_sound Bid mentioned _ (bids b) Hib E3).
+  rewrite (side_is_map_sound Ask mentioned _ (asks b) Hia E4). reflexivity.
+Qed.
+
+Lemma mgr_sound evs mentioned (all : list book) :
+  forallb (fun me => wf_event (snd me)) evs = true ->
+  (forall i, (i < length all)%nat -> nth i all empty_book = fold_left update (route i evs) empty_book) ->
+  forall suffix finals i,
+  (i + length suffix = length all)%nat ->
+  (forall j, (j < length suffix)%nat -> nth j suffix empty_book = nth (i + j) all empty_book) ->
+  all2 book_matches suffix finals = true -> mgr_ok evs mentioned i finals = true.
+Proof.
+  intros Hwf Hall. induction suffix as [|b t IH]; intros [|f fs] i Hlen Hnth H; cbn [all2] in H; try discriminate; [reflexivity|].
+  apply andb_true_iff in H as [Hb H]. cbn [mgr_ok]. cbn [length] in Hlen.
+  rewrite (final_sound evs mentioned i b f Hwf); [cbn [andb]|..].
+  - apply (IH fs (S i)); [lia| |exact H].
+    intros j Hj. specialize (Hnth (S j)). cbn [nth length] in Hnth. rewrite Hnth by lia. f_equal. lia.
+  - specialize (Hnth 0%nat). cbn [nth length] in Hnth. rewrite Hnth by lia. rewrite Nat.add_0_r. apply Hall. lia.
+  - exact Hb.
+Qed.
+
 Theorem corr_implies_prop c : wf_case c = true -> corr_b c = true -> prop_b c = true.
 Proof.
-  destruct c as [evs d os|s init ups res|evs d|s init ups]; cbn [wf_case corr_b prop_b]; intros Hwf H; try discriminate.
+  destruct c as [evs d os|s init ups res|n mevs finals|evs d|s init ups]; cbn [wf_case corr_b prop_b]; intros Hwf H; try discriminate.
   - apply (run_sound (N.to_nat d) _ evs empty_book _ os Hwf empty_book_inv (sbook_eq_refl _) H).
   - apply levels_eqb_eq in H. subst res.
     assert (Hss : SS s (sort_levels s init)) by (apply sort_levels_SS; exact Hwf).
     apply side_is_map_sound.
     + apply strict_sorted_SS. apply upsert_SS. exact Hss.
     + intros p. rewrite lookup_upsert by exact Hss. apply spec_upsert_ext. intros q. apply lookup_sort_levels.
+  - pose proof (mgr_events_wf mevs Hwf) as Hwf'.
+    set (all := fold_left mgr_step (mgr_events mevs) (repeat empty_book (N.to_nat n))) in *.
+    assert (Hlen : length all = N.to_nat n) by (unfold all; rewrite length_fold_mgr, repeat_length; reflexivity).
+    pose proof (all2_length _ _ _ H) as Hl2.
+    apply andb_true_iff. split; [apply Nat.eqb_eq; lia|].
+    apply (mgr_sound (mgr_events mevs) _ all Hwf') with (suffix := all); [|lia| |exact H].
+    + intros i Hi. unfold all. rewrite mgr_routes by (rewrite repeat_length; lia).
+      f_equal. apply nth_repeat.
+    + intros j _. reflexivity.
 Qed.
